@@ -1209,6 +1209,11 @@ func (a *FnAnalysis) earlyExits(depth int) int {
 				if inLoop[y] {
 					continue
 				}
+				if isLatchOf(x, h) && inductionTest(x, h) {
+					// a rotated loop (`for i := range n` in go/ssa) tests its counter at the bottom:
+					// that exit is the loop condition, not a break
+					continue
+				}
 				switch y.Instrs[len(y.Instrs)-1].(type) {
 				case *ssa.Return, *ssa.Panic:
 					if len(y.Instrs) <= 12 {
@@ -1240,6 +1245,55 @@ func (a *FnAnalysis) earlyExits(depth int) int {
 		}
 	}
 	return total
+}
+
+func isLatchOf(x, h *ssa.BasicBlock) bool {
+	for _, s := range x.Succs {
+		if s == h {
+			return true
+		}
+	}
+	return false
+}
+
+// inductionTest: block x ends in a branch on a comparison one of whose operands is a
+// counter of the loop headed by h (a phi of h, possibly offset by a constant).
+func inductionTest(x, h *ssa.BasicBlock) bool {
+	ifi, ok := x.Instrs[len(x.Instrs)-1].(*ssa.If)
+	if !ok {
+		return false
+	}
+	cmp, ok := ifi.Cond.(*ssa.BinOp)
+	if !ok {
+		return false
+	}
+	switch cmp.Op {
+	case token.LSS, token.LEQ, token.GTR, token.GEQ, token.NEQ:
+	default:
+		return false
+	}
+	counter := func(v ssa.Value) bool {
+		for i := 0; i < 3; i++ {
+			switch y := v.(type) {
+			case *ssa.Phi:
+				return y.Block() == h
+			case *ssa.BinOp:
+				if y.Op != token.ADD && y.Op != token.SUB {
+					return false
+				}
+				if _, isC := y.Y.(*ssa.Const); !isC {
+					return false
+				}
+				v = y.X
+			case *ssa.Convert:
+				v = y.X
+			default:
+				return false
+			}
+		}
+		return false
+	}
+	return counter(cmp.X) || counter(cmp.Y)
 }
 
 // loopKey names a loop by what bounds it — the operand of the header test that
